@@ -223,10 +223,23 @@ class PyWorld:
                 models = None if op[2] is None else self._model_objs(op[2])
                 al = op[3]
                 names = None if al is None else (nm(al[1]) if al[0] == 's' else [nm(a) for a in al[1]])
-                self.pmm.map_param(p, models=models, model_param_names=names)
+                models0 = None if models is None else list(models)
+                names0 = _copy.deepcopy(names)
+                try:
+                    self.pmm.map_param(p, models=models, model_param_names=names)
+                finally:
+                    if names != names0 or (models is not None and (len(models) != len(models0)
+                                                                   or any(a is not b for a, b in zip(models, models0)))):
+                        DAMAGE.append(('ParameterModelMapper.map_param', 'models-or-names-argument-modified', repr(names)))
                 self._alloc(p)
             elif k == 'fix':
-                self.get(op[1]).make_params_fixed({nm(n): (None if v is None else float(v)) for n, v in op[2]})
+                req = {nm(n): (None if v is None else float(v)) for n, v in op[2]}
+                req0 = dict(req)
+                try:
+                    self.get(op[1]).make_params_fixed(req)
+                finally:
+                    if req != req0 or list(req) != list(req0):
+                        DAMAGE.append(('ParameterSet.make_params_fixed', 'request-dict-argument-modified', repr(req)))
             elif k == 'float':
                 req = {}
                 for n, e in op[2]:
@@ -236,10 +249,18 @@ class PyWorld:
                         req[nm(n)] = float(e[1])
                     else:
                         req[nm(n)] = tuple(None if x is None else float(x) for x in e[1:])
-                self.get(op[1]).make_params_floating(req)
+                req0 = dict(req)
+                try:
+                    self.get(op[1]).make_params_floating(req)
+                finally:
+                    if req != req0 or list(req) != list(req0):
+                        DAMAGE.append(('ParameterSet.make_params_floating', 'request-dict-argument-modified', repr(req)))
             elif k == 'union':
                 srcs = [self.get(r) for r in op[1]]
+                before = [[(id(p), p.name, p.isfixed, p.initial, p.valmin, p.valmax, p.value) for p in x.params] for x in srcs]
                 u = ParameterSet.union(*srcs)
+                if before != [[(id(p), p.name, p.isfixed, p.initial, p.valmin, p.valmax, p.value) for p in x.params] for x in srcs]:
+                    DAMAGE.append(('ParameterSet.union', 'operand-set-modified', repr(op)))
                 for p in u.params:
                     if id(p) not in self.label:
                         self._alloc(p)
@@ -256,6 +277,9 @@ class PyWorld:
         except Exception as ex:     # noqa: BLE001 - the kind of exception is the observation
             return type(ex).__name__
         return None
+
+
+DAMAGE = []     # (site, kind, detail) recorded by the observers / PyWorld.apply: arguments that were modified
 
 
 def _res(f):
@@ -283,7 +307,10 @@ def obs_set(w, s):
           [int(i) for i in s.floating_params_idxs],
           _res(lambda: [fz(v) for v in s.floating_param_initials]),
           _res(lambda: [(opt(fz(a)), opt(fz(b))) for a, b in s.floating_param_bounds]))
+    vec0 = vec.tobytes()
     g4 = (4, items(s.get_params_dict(vec)), items(s.get_floating_params_dict(vec)), items(s.get_params_dict(vec[1:])))
+    if vec.tobytes() != vec0:
+        DAMAGE.append(('ParameterSet.get_params_dict', 'value-vector-argument-modified', repr(vec.tolist())))
     return (1, locs, ('Ok', params), g2, g3, g4)
 
 
@@ -307,15 +334,24 @@ def obs_map(w):
     matrix = [[('None' if a is None else ('Some', unnm(a))) for a in row] for row in pmm._model_param_names]
     g6 = (6, matrix, srcs, [int(i) for i in pmm.get_src_model_idxs(sources=ev_objs)],
           _res(lambda: [unnm(n) for n in pmm.unique_source_param_names]))
+    vec0, vec10 = vec.tobytes(), vec1.tobytes()
+    rev = np.array(srcs[::-1], dtype=np.int32)
+    rev0 = rev.tobytes()
+    ev_objs0 = list(ev_objs)
     g7 = (7, _res(lambda: rec_canon(pmm.create_src_params_recarray(vec))),
           _res(lambda: rec_canon(pmm.create_src_params_recarray(vec, sources=ev_objs))),
-          _res(lambda: rec_canon(pmm.create_src_params_recarray(vec, sources=np.array(srcs[::-1], dtype=np.int32)))),
+          _res(lambda: rec_canon(pmm.create_src_params_recarray(vec, sources=rev))),
           _res(lambda: rec_canon(pmm.create_src_params_recarray(vec1))))
     n = len(w.models)
     g8 = (8, [_res(lambda m=m: items(pmm.create_model_params_dict(vec, m))) for m in list(range(n)) + [n, -1]],
           _res(lambda: items(pmm.create_model_params_dict(vec1, 0))))
-    g9 = (9, [bool(b) for b in pmm.get_local_param_is_global_floating_param_mask([nm(k) for k in PROBE])],
+    probe = [nm(k) for k in PROBE]
+    g9 = (9, [bool(b) for b in pmm.get_local_param_is_global_floating_param_mask(probe)],
           [_res(lambda k=k: int(pmm.get_gflp_idx(nm(k)))) for k in PROBE])
+    if vec.tobytes() != vec0 or vec1.tobytes() != vec10:
+        DAMAGE.append(('ParameterModelMapper', 'value-vector-argument-modified', repr(vec.tolist())))
+    if rev.tobytes() != rev0 or ev_objs != ev_objs0 or probe != [nm(k) for k in PROBE]:
+        DAMAGE.append(('ParameterModelMapper', 'sources-or-names-argument-modified', repr(rev.tolist())))
     return (5, g6, g7, g8, g9)
 
 
@@ -812,25 +848,266 @@ def predicates(ctx, case, w, ref, step, op, err, before):
     return now
 
 
-# ------------------------------------------------------------------ running one case
-def run_impl(ctx, case, mode):
-    """mode 'trace': observation after every step; 'last': after the last step only.  The predicates are
-    evaluated after every step of a 'trace' case and after the last step of a 'last' case (all of whose
-    prefixes are cases of their own)."""
-    w = PyWorld(case['src'])
-    ref = Ref(case['src'])
+# ------------------------------------------------------------------ history probes on the real objects
+# (tools/HARDENING.md): the result of every observable is a function of the current state and of the
+# arguments only — no memo surviving a mutator, no buffer shared between calls or instances, arguments
+# and returned values left alone.  None of this needs the model.
+class _W:
+    """just enough of a PyWorld for obs_map / obs_set"""
+    def __init__(self, pmm, models):
+        self.pmm, self.models, self.label, self.sets = pmm, models, {}, []
+
+
+def fresh_param(p):
+    from skyllh.core.parameters import Parameter
+    q = Parameter(p.name, p.initial, p.valmin, p.valmax, isfixed=bool(p.isfixed))
+    if q.value != p.value:
+        q.value = p.value
+    return q
+
+
+def twin_set(s):
+    """a ParameterSet constructed from scratch that holds the same state"""
+    from skyllh.core.parameters import ParameterSet
+    return ParameterSet([fresh_param(p) for p in s.params])
+
+
+def twin_mapper(w):
+    from skyllh.core.parameters import ParameterModelMapper
+    from skyllh.core.model import Model
+    pmm = w.pmm
+    t = ParameterModelMapper(w.models)
+    M = pmm._model_param_names
+    n = len(w.models)
+    for j, p in enumerate(pmm.global_paramset.params):
+        mapped = [i for i in range(n) if M[i][j] is not None]
+        if mapped:
+            t.map_param(fresh_param(p), models=[w.models[i] for i in mapped],
+                        model_param_names=[(M[i][j] if M[i][j] is not None else 'unused') for i in range(n)])
+        else:
+            t.map_param(fresh_param(p), models=[Model('foreign')])
+    return t
+
+
+def set_face(w, s):
+    """everything observable of a set that does not depend on object identity"""
+    return (obs_set(w, s)[2:], str(s), [p.name for p in s], len(s), [str(p) for p in s.params],
+            [(s.has_param(p), s.has_fixed_param(p.name), s.has_floating_param(p.name)) for p in s.params])
+
+
+def map_face(w):
+    pmm = w.pmm
+    g = pmm.global_paramset
+    vec = np.array([100.0 + i for i in range(g.n_floating_params)])
+    extra = []
+    try:
+        rec = pmm.create_src_params_recarray(vec)
+        names = [n for n in rec.dtype.names if n != ':model_idx' and not n.endswith(':gpidx')]
+        extra = [(n, bool(pmm.is_local_param_a_fitparam(n, rec)),
+                  [bool(pmm.is_global_fitparam_a_local_param(f, rec, [n])) for f in range(len(vec))]) for n in names]
+    except Exception as ex:     # noqa: BLE001
+        extra = ['raises', type(ex).__name__]
+    return (obs_map(w), str(pmm), extra, [_res(lambda m=m: pmm.get_model_idx_by_name(m.name)) for m in w.models],
+            (pmm.n_models, pmm.n_global_params, pmm.n_global_fixed_params, pmm.n_global_floating_params, int(pmm.n_sources)),
+            _res(lambda: [str(x) for x in pmm.unique_model_param_names]))
+
+
+def _first_diff(a, b):
+    fa, fb = flat_any(a), flat_any(b)
+    k = next((i for i, (x, y) in enumerate(zip(fa, fb)) if x != y), min(len(fa), len(fb)))
+    return ' '.join(map(str, fa[max(0, k - 6):k + 6])) + '  <>  ' + ' '.join(map(str, fb[max(0, k - 6):k + 6]))
+
+
+def flat_any(x):
     out = []
-    before = impl_keys(w)
-    n = len(case['ops'])
-    for i, op in enumerate(case['ops']):
+
+    def go(y):
+        if isinstance(y, (list, tuple)):
+            out.append('[')
+            for z in y:
+                go(z)
+            out.append(']')
+        else:
+            out.append(y)
+    go(x)
+    return out
+
+
+def check_twins(w, bad):
+    """mutate-then-observe: every set and the mapper against a freshly constructed twin with the same state"""
+    for si, s in enumerate(w.all_sets()):
+        try:
+            t = twin_set(s)
+        except Exception as ex:     # noqa: BLE001
+            bad.append(('ParameterSet', 'state-not-constructible-from-scratch', type(ex).__name__, str(si)))
+            continue
+        a, b = set_face(w, s), set_face(w, t)
+        if a != b:
+            bad.append(('ParameterSet', 'differs-from-freshly-constructed-twin', _first_diff(a, b), f'set {si}'))
+    try:
+        tw = _W(twin_mapper(w), w.models)
+    except Exception as ex:     # noqa: BLE001
+        bad.append(('ParameterModelMapper', 'state-not-constructible-from-scratch', type(ex).__name__, ''))
+        return
+    a, b = map_face(w), map_face(tw)
+    if a != b:
+        bad.append(('ParameterModelMapper', 'differs-from-freshly-constructed-twin', _first_diff(a, b), ''))
+
+
+def _snap(x):
+    """deep, comparable snapshot of a returned value"""
+    if isinstance(x, np.ndarray):
+        if x.dtype == object:
+            return ('objarr', [id(y) for y in x])
+        return ('arr', str(x.dtype), x.shape, x.tobytes())
+    if isinstance(x, dict):
+        return ('dict', [(k, _snap(v)) for k, v in x.items()])
+    if isinstance(x, (list, tuple)):
+        return ('seq', [_snap(y) for y in x])
+    if isinstance(x, (float, np.floating)):
+        return ('f', float(x).hex())
+    return ('v', repr(x))
+
+
+def collect_results(w):
+    """results handed out to the caller: (label, live object, snapshot).  Each call is followed by the same call
+    with other arguments; the first result must not change and must not share memory with the second."""
+    out = []
+    bad = []
+    pmm = w.pmm
+
+    def hold(label, f, g=None):
+        try:
+            r1 = f()
+        except Exception:     # noqa: BLE001 - covered by the views
+            return
+        s1 = _snap(r1)
+        try:
+            r2 = (g or f)()
+        except Exception:     # noqa: BLE001
+            r2 = None
+        if _snap(r1) != s1:
+            bad.append((label, 'returned-value-changed-by-next-call', '', ''))
+        # (a memo may legitimately hand out the same object for the same arguments: only calls with OTHER
+        # arguments must not share their result buffer)
+        if g is not None and isinstance(r1, np.ndarray) and isinstance(r2, np.ndarray) and r1.size and r2.size \
+                and np.shares_memory(r1, r2):
+            bad.append((label, 'results-of-calls-with-different-arguments-share-memory', '', ''))
+        out.append((label, r1, s1))
+
+    for si, s in enumerate(w.all_sets()):
+        nf = s.n_floating_params
+        va = np.array([1.5 + i for i in range(nf)])
+        vb = np.array([-7.25 - i for i in range(nf)])
+        hold('ParameterSet.get_params_dict', lambda: s.get_params_dict(va), lambda: s.get_params_dict(vb))
+        hold('ParameterSet.get_floating_params_dict', lambda: s.get_floating_params_dict(va),
+             lambda: s.get_floating_params_dict(vb))
+        hold('ParameterSet.floating_param_bounds', lambda: s.floating_param_bounds)
+        hold('ParameterSet.floating_param_initials', lambda: s.floating_param_initials)
+        hold('ParameterSet.floating_params_mask', lambda: s.floating_params_mask)
+        hold('ParameterSet.fixed_params_idxs', lambda: s.fixed_params_idxs)
+        hold('ParameterSet.floating_params_idxs', lambda: s.floating_params_idxs)
+        hold('ParameterSet.params_name_list', lambda: s.params_name_list)
+        hold('ParameterSet.floating_params', lambda: s.floating_params)
+        hold('ParameterSet.fixed_params', lambda: s.fixed_params)
+    g = pmm.global_paramset
+    nf = g.n_floating_params
+    va = np.array([1.5 + i for i in range(nf)])
+    vb = np.array([-7.25 - i for i in range(nf)])
+    srcs = [int(i) for i in pmm.get_src_model_idxs()]
+    hold('ParameterModelMapper.create_src_params_recarray', lambda: pmm.create_src_params_recarray(va),
+         lambda: pmm.create_src_params_recarray(vb))
+    if len(srcs) > 1:
+        hold('ParameterModelMapper.create_src_params_recarray(sources)', lambda: pmm.create_src_params_recarray(va),
+             lambda: pmm.create_src_params_recarray(va, sources=np.array(srcs[:1], dtype=np.int32)))
+    for i in range(len(w.models)):
+        hold('ParameterModelMapper.create_model_params_dict', lambda i=i: pmm.create_model_params_dict(va, i),
+             lambda i=i: pmm.create_model_params_dict(vb, (i + 1) % len(w.models)))
+    hold('ParameterModelMapper.create_global_params_dict', lambda: pmm.create_global_params_dict(va),
+         lambda: pmm.create_global_params_dict(vb))
+    hold('ParameterModelMapper.get_src_model_idxs', lambda: pmm.get_src_model_idxs(),
+         lambda: pmm.get_src_model_idxs(sources=[w.models[i] for i in srcs[:1]]))
+    hold('ParameterModelMapper.unique_source_param_names', lambda: pmm.unique_source_param_names)
+    hold('ParameterModelMapper.get_local_param_is_global_floating_param_mask',
+         lambda: pmm.get_local_param_is_global_floating_param_mask([nm(k) for k in PROBE]),
+         lambda: pmm.get_local_param_is_global_floating_param_mask([nm(k) for k in PROBE[::-1]]))
+    return out, bad
+
+
+def check_held(held, bad):
+    """results handed out before the last mutator must still be what they were"""
+    for label, obj, snap in held:
+        if _snap(obj) != snap:
+            bad.append((label, 'returned-value-changed-by-later-operation', '', ''))
+
+
+def history_probes(ctx, case, w, step, op, held, o1, full=True):
+    bad = []
+    for d in DAMAGE:
+        bad.append((d[0], d[1], d[2], ''))
+    del DAMAGE[:]
+    check_held(held, bad)
+    new_held = []
+    if full:
+        check_twins(w, bad)
+        new_held, b2 = collect_results(w)
+        bad.extend(b2)
+    o2 = observe(w)
+    if o2 != o1:
+        bad.append(('ParameterSet/ParameterModelMapper', 'repeated-observation-differs', _first_diff(o1, o2), ''))
+    for d in DAMAGE:
+        bad.append((d[0], d[1], d[2], ''))
+    del DAMAGE[:]
+    for (site, kind, got, want) in bad:
+        ctx.violation(site, kind, f'step {step} {op!r}: {got} {want}',
+                      case={'src': case['src'], 'ops': [list(o) for o in case['ops'][:step + 1]]},
+                      impl=got, predicate=kind)
+    return new_held
+
+
+# ------------------------------------------------------------------ running one case
+class Runner:
+    """one case on the real objects, one operation per step() so that two cases (two mappers, their sets, copies
+    and unions) are alive at the same time and are driven alternately.
+    mode 'trace': observation + predicates + history probes after every step; 'last': after the last step only
+    (every prefix is a case of its own) — there everything is read once BEFORE the last operation as well, so
+    that anything memoised by a read has been populated before the mutator runs."""
+    count = 0
+
+    def __init__(self, ctx, case, mode):
+        self.ctx, self.case, self.mode = ctx, case, mode
+        self.w = PyWorld(case['src'])
+        self.ref = Ref(case['src'])
+        self.out = []
+        self.before = impl_keys(self.w)
+        self.i = 0
+        self.held = []
+        # 'last' cases: the full probe set on every third case (deterministic), the cheap ones on all
+        Runner.count += 1
+        self.full = mode == 'trace' or Runner.count % 3 == 0
+
+    def done(self):
+        return self.i >= len(self.case['ops'])
+
+    def step(self):
+        ctx, case, w, ref, i = self.ctx, self.case, self.w, self.ref, self.i
+        op = case['ops'][i]
+        n = len(case['ops'])
+        checked = self.mode == 'trace' or i == n - 1
+        if checked and self.mode == 'last':
+            observe(w)
+            if self.full:
+                self.held, _ = collect_results(w)
         err = w.apply(op)
         if err is not None and err not in ERRS:
             ctx.violation('op:' + op[0], 'unexpected-exception-' + err, f'{op!r} raised {err}',
                           case={'src': case['src'], 'ops': [list(o) for o in case['ops'][:i + 1]]}, impl=err)
         ctx.count('op:' + op[0] + (':err' if err else ':ok'))
-        if mode == 'trace' or i == n - 1:
-            before = predicates(ctx, case, w, ref, i, op, err, before)
-            out.append((('Some', err) if err else 'None', observe(w)))
+        if checked:
+            self.before = predicates(ctx, case, w, ref, i, op, err, self.before)
+            o1 = observe(w)
+            self.out.append((('Some', err) if err else 'None', o1))
+            self.held = history_probes(ctx, case, w, i, op, self.held, o1, self.full)
         else:
             # keep the reference in step without re-checking the (already covered) prefix
             verdict, upd = ref.apply(op)
@@ -838,8 +1115,16 @@ def run_impl(ctx, case, mode):
                 ref.commit(upd)
             else:
                 ref.adopt(w)
-            before = impl_keys(w)
-    return out
+            self.before = impl_keys(w)
+            del DAMAGE[:]
+        self.i += 1
+
+
+def run_impl(ctx, case, mode):
+    r = Runner(ctx, case, mode)
+    while not r.done():
+        r.step()
+    return r.out
 
 
 def model_expr(case, mode):
@@ -1076,9 +1361,17 @@ def corpus_cases():
 def run_batch(ctx, batch, tag):
     """batch: list of (case, mode).  Runs the implementation (with predicates) and the model, compares."""
     impl = []
-    for case, mode in batch:
-        ctx.case({'src': case['src'], 'ops': case['ops'], 'mode': mode}, nontrivial=len(case['ops']) > 0)
-        impl.append(impl_tokens(run_impl(ctx, case, mode), mode))
+    for k in range(0, len(batch), 2):
+        pair = []
+        for case, mode in batch[k:k + 2]:
+            ctx.case({'src': case['src'], 'ops': case['ops'], 'mode': mode}, nontrivial=len(case['ops']) > 0)
+            pair.append(Runner(ctx, case, mode))
+        while any(not r.done() for r in pair):      # two worlds alive, driven alternately
+            for r in pair:
+                if not r.done():
+                    r.step()
+        for r, (case, mode) in zip(pair, batch[k:k + 2]):
+            impl.append(impl_tokens(r.out, mode))
     if not ctx.model_ok:
         ctx.notes.append('model did not build: implementation-only predicates were evaluated')
         return
